@@ -26,6 +26,7 @@ import (
 	transfertypes "github.com/cosmos/ibc-go/v8/modules/apps/transfer/types"
 	clienttypes "github.com/cosmos/ibc-go/v8/modules/core/02-client/types"
 	channeltypes "github.com/cosmos/ibc-go/v8/modules/core/04-channel/types"
+	ibcexported "github.com/cosmos/ibc-go/v8/modules/core/exported"
 
 	"github.com/dymensionxyz/dymension/v3/app/apptesting"
 	denommetadata "github.com/dymensionxyz/dymension/v3/x/denommetadata"
@@ -83,6 +84,9 @@ type c10H struct {
 	// TransferProofHeight was 0 (= completed handshakes; the model's ghost counter nOpen)
 	nOpen map[int]int
 	seqNo    map[int]uint64
+	// two-chain fixture (c10_coord_test.go): messages and packets go through real blocks of the coordinator's hub chain
+	deliverFn func(sdk.Msg) error
+	recvFn    func(channeltypes.Packet, clienttypes.Height) (ibcexported.Acknowledgement, string, error)
 }
 
 type c10Chan struct {
@@ -201,6 +205,9 @@ func (h *c10H) genesisInfo(g c10GI) *rollapptypes.GenesisInfo {
 
 // deliver = Fix.Deliver with the message's ValidateBasic inside the panic guard (baseapp recovers there too)
 func (h *c10H) deliver(msg sdk.Msg) (err error) {
+	if h.deliverFn != nil {
+		return h.deliverFn(msg)
+	}
 	defer func() {
 		if r := recover(); r != nil {
 			err = &PanicError{Val: r}
@@ -742,7 +749,11 @@ func (h *c10H) exec(line string) (res string, rc *c10Recv) {
 				closedBefore = ra.GenesisState.TransferProofHeight == 0
 			}
 		}
-		ack, et, err := h.e.recvPacket(pkt, clienttypes.NewHeight(1, atou(m["ph"])))
+		recvFn := h.e.recvPacket
+		if h.recvFn != nil {
+			recvFn = h.recvFn
+		}
+		ack, et, err := recvFn(pkt, clienttypes.NewHeight(1, atou(m["ph"])))
 		if err == nil && ack != nil && ack.Success() && closedBefore {
 			h.nOpen[c.r]++
 		}
@@ -1889,6 +1900,10 @@ func (c *c10Gen) next(s *c10Snap, step int) string {
 }
 
 func c10RunTrace(t *testing.T, r *Run, lines []string, gen func(h *c10H, s *c10Snap, i int) string, nOps int) {
+	if len(lines) > 0 && c10IsCoordTrace(lines[0]) {
+		c10CoordRunTrace(t, r, lines) // two-chain fixture, see c10_coord_test.go
+		return
+	}
 	h := newC10H(t)
 	mon := &c10Mon{h: h, r: r}
 	hash := sha256.New()
@@ -2111,6 +2126,12 @@ func TestC10(t *testing.T) {
 	for _, lines := range c10Directed() {
 		r.Hit("directed/deferred-trading-trace")
 		c10RunTrace(t, r, lines, nil, 0)
+	}
+	for _, d := range c10CoordDirected() {
+		for _, b := range d.hits {
+			r.Hit("directed/" + b)
+		}
+		c10RunTrace(t, r, d.lines, nil, 0)
 	}
 	nTraces, nOps := r.N(220, 4000), r.N(45, 60)
 	for tr := 0; tr < nTraces; tr++ {
